@@ -323,6 +323,17 @@ pub fn explore_c15(unit_seed: u64, tier: Tier) -> UnitReport {
         }
     }
 
+    // 1b. the same front door without any options (`auto_solver` / the builder's `Auto`):
+    // "no gap requested" is a setting too, and an Optimal label must then mean the optimum.
+    // Only when the never-expiring run above terminated (same model, same pivoting).
+    if !no_progress && !is_deep && !matches!(free.outcome, Outcome::Panic { .. }) {
+        let auto = if front.is_builder() { Entry::BuilderAuto } else { Entry::Auto };
+        if auto.accepts(&m) {
+            run_one(&mut rep, RunCfg::plain(auto), false);
+            rep.count("no-options-twin(Auto)");
+        }
+    }
+
     // 2. every interruption instant
     // a run that never terminates spins inside one loop: only the first reads differ
     let ks: Vec<u64> = if no_progress {
